@@ -185,3 +185,37 @@ Proof. unfold construct, ctor_validation_raises. destruct samplers as [l|], sche
   - eexists; reflexivity.
   - eexists; reflexivity.
   - exfalso. now apply H1. Qed.
+
+(* ---- RL bootstrap sampler ---- *)
+Lemma last_index_of_spec c l : forall k acc,
+  match last_index_of c l k acc with
+  | Some i => (exists j s, i = k + j /\ nth_error l j = Some s /\ s_class s = c) \/ (acc = Some i /\ forall s, In s l -> s_class s <> c)
+  | None => acc = None /\ forall s, In s l -> s_class s <> c
+  end.
+Proof. induction l as [|x l IH]; intros k acc; cbn.
+  - destruct acc; [right|]; split; auto; intros s [].
+  - specialize (IH (S k) (if Nat.eqb (s_class x) c then Some k else acc)).
+    destruct (last_index_of c l (S k) _) as [i|].
+    + destruct IH as [(j & s & Hi & Hn & Hc) | [Ha Hall]].
+      * left. exists (S j), s. repeat split; auto; lia.
+      * destruct (Nat.eqb_spec (s_class x) c) as [E|E].
+        { injection Ha as <-. left. exists 0, x. repeat split; auto; lia. }
+        { right. split; [exact Ha|]. intros s [<-|Hs]; auto. }
+    + destruct IH as [Ha Hall]. destruct (Nat.eqb_spec (s_class x) c) as [E|E]; [discriminate|].
+      split; [exact Ha|]. intros s [<-|Hs]; auto.
+Qed.
+
+(* the first batch is produced by a Halton sampler: the supplied one (last of them) or an added one; the supplied
+   samplers are kept, in order, and nothing else is added *)
+Theorem rl_bootstrap_spec l fresh : s_class fresh = HALTON ->
+  let '(l', h) := rl_bootstrap l fresh in
+  (exists s, nth_error l' h = Some s /\ s_class s = HALTON) /\
+  ((exists s, In s l /\ s_class s = HALTON) -> l' = l) /\
+  ((forall s, In s l -> s_class s <> HALTON) -> l' = l ++ [fresh] /\ h = length l).
+Proof. intros Hf. unfold rl_bootstrap. pose proof (last_index_of_spec HALTON l 0 None) as H.
+  destruct (last_index_of HALTON l 0 None) as [i|].
+  - destruct H as [(j & s & Hi & Hn & Hc) | [Ha _]]; [|discriminate]. cbn in Hi. subst i.
+    split; [exists s; auto|]. split; [auto|]. intros Hall. exfalso. apply (Hall s); [eapply nth_error_In; eauto | exact Hc].
+  - destruct H as [_ Hall]. split; [exists fresh; split; [|exact Hf]; rewrite nth_error_app2, Nat.sub_diag by lia; reflexivity|].
+    split; [intros (s & Hs & Hc); exfalso; eapply Hall; eauto | auto].
+Qed.
